@@ -1,5 +1,5 @@
 -------------------------------- MODULE MC_C16 --------------------------------
-(* All histories of the public builder calls up to MAXLEN over a 17-call alphabet (valid and   *)
+(* All histories of the public builder calls up to MAXLEN over a 18-call alphabet (valid and   *)
 (* invalid arguments): the accumulated state must mean what the history means - derives as a   *)
 (* union irrespective of order and repetition, the rule of a source path = the last accepted   *)
 (* insertion (insert-if-absent never replaces), rejected calls change nothing.                 *)
@@ -12,7 +12,7 @@ GSrc(args) == TPath(FALSE, <<"probe", "G">>, args)
 Alphabet == {
   DeriveCall("all_d", NoTree, <<"::d::A">>, FALSE), DeriveCall("all_d", NoTree, <<"::d::B", "::d::A">>, FALSE), DeriveCall("all_a", NoTree, <<"#[a0]">>, FALSE),
   DeriveCall("for_d", PA, <<"::d::C">>, FALSE), DeriveCall("for_d", PA, <<"::d::R">>, TRUE), DeriveCall("for_a", PB, <<"#[b1]">>, FALSE),
-  DeriveCall("for_a", PA, <<"#[ra]">>, TRUE),
+  DeriveCall("for_a", PA, <<"#[ra]">>, TRUE), DeriveCall("for_d", PB, <<"::d::RB", "::d::C">>, TRUE),
   SubCall("insert", GSrc(<<Id("T"), Id("U")>>), Ext("G2", <<Id("U"), Id("T")>>), "ok", "ok"),
   SubCall("insert", GSrc(<<>>), Ext("G3", <<>>), "ok", "ok"),
   SubCall("insert_if_not_exists", GSrc(<<Id("T"), Id("U")>>), Ext("G4", <<Id("T")>>), "ok", "ok"),
